@@ -8,8 +8,11 @@ use crate::world::{gen_world, WorldGenOpts};
 use serde_json::json;
 use std::path::Path;
 
-pub fn generate(seed: u64, dir: &Path) -> Result<(), String> {
-    let mut rng = Rng::derive(seed, "mirigen", 0);
+/// `big`: the same kind of world plus 1200 inflected words whose dictionary forms are separate entries, and one long
+/// text per thread that uses 400 of them: state whose behaviour changes with the *amount* of distinct data seen
+/// (bounded caches, tables that grow) is exercised by the shuttle engine only with such a scenario.
+pub fn generate(seed: u64, dir: &Path, big: bool) -> Result<(), String> {
+    let mut rng = Rng::derive(seed, if big { "mirigen-big" } else { "mirigen" }, 0);
     // keep the world small: Miri interprets dictionary loading too
     let opts = WorldGenOpts { max_users: 1, max_rows: 10, full_plugins: true };
     let (mut world, _) = loop {
@@ -34,6 +37,24 @@ pub fn generate(seed: u64, dir: &Path) -> Result<(), String> {
     }
     // a compact rewrite.def keeps the automaton construction affordable under Miri
     world.rewrite_def = "# ignore\nΩ\n\n# replace\nｶﾞ\tガ\nか\u{3099}\tが\nｱ\tア\n".to_string();
+    let mut big_texts: Vec<String> = vec![String::new(), String::new(), String::new()];
+    if big {
+        let first = world.system_csv.lines().next().unwrap_or("").to_string();
+        let f = crate::buildsim::split_csv_line(&first);
+        let pos = if f.len() >= 19 { f[5..11].join(",") } else { "名詞,普通名詞,一般,*,*,*".to_string() };
+        let base = world.system_csv.lines().count();
+        let mut extra = String::new();
+        for i in 0..1200usize {
+            let c1 = char::from_u32(0x5200 + (i / 48) as u32).unwrap();
+            let c2 = char::from_u32(0x5400 + (i % 48) as u32).unwrap();
+            let infl = format!("{}{}", c1, c2);
+            let lemma = format!("{}る", infl);
+            extra.push_str(&format!("{0},0,0,-300,{0},{1},{0},{0},*,A,*,*,*,*\n", lemma, pos));
+            extra.push_str(&format!("{0},0,0,-300,{0},{1},{0},{0},{2},A,*,*,*,*\n", infl, pos, base + 2 * i));
+            big_texts[i % 3].push_str(&infl);
+        }
+        world.system_csv.push_str(&extra);
+    }
     std::fs::create_dir_all(dir).map_err(|e| e.to_string())?;
     write_resources(&world, dir)?;
     let sys = compile_system(world.matrix.as_bytes(), &[world.system_csv.as_bytes()], FIXED_TIME, "miri")?;
@@ -97,6 +118,9 @@ pub fn generate(seed: u64, dir: &Path) -> Result<(), String> {
             text.push_str(&key(&mut rng));
             let subset = if rng.chance(1, 2) { 1023 } else { (rng.next_u64() as u32 & 1023) | 0b1101 };
             ops.push(json!({"op": "analyse", "text": text, "mode": modes[rng.below(3)], "subset": subset}));
+        }
+        if big {
+            ops.push(json!({"op": "analyse", "text": big_texts[t], "mode": "C", "subset": 1023}));
         }
         if t == 0 {
             ops.push(json!({"op": "sentences", "text": format!("{}。{}！{}", key(&mut rng), key(&mut rng), key(&mut rng))}));
